@@ -370,4 +370,214 @@ def rule_copy(ctx):
                         lambda i: i.construct.endswith(("::sliced_inds", "::sliced_inputs")), 2)
 
 
-RULES = [rule_order, rule_pair, rule_multpair, rule_apply, rule_chunkkey, rule_combine, rule_copy]
+# ------------------------------------------------------------------ COVER / FRESHCHUNK
+
+class _Unknown(Exception):
+    pass
+
+
+def _pe(e, env):
+    """partial evaluation of integer expressions; attribute reads are looked up by dotted name"""
+    if isinstance(e, ast.Constant) and isinstance(e.value, int):
+        return e.value
+    d = dotted(e)
+    if d is not None:
+        if d in env:
+            return env[d]
+        raise _Unknown(d)
+    if isinstance(e, ast.UnaryOp) and isinstance(e.op, ast.USub):
+        return -_pe(e.operand, env)
+    if isinstance(e, ast.BinOp):
+        a, b = _pe(e.left, env), _pe(e.right, env)
+        ops = {ast.Add: lambda: a + b, ast.Sub: lambda: a - b, ast.Mult: lambda: a * b,
+               ast.FloorDiv: lambda: a // b, ast.Mod: lambda: a % b}
+        if type(e.op) in ops:
+            return ops[type(e.op)]()
+    if isinstance(e, ast.Call) and dotted(e.func) in ("min", "max") and not e.keywords:
+        vals = [_pe(a, env) for a in e.args]
+        return min(vals) if dotted(e.func) == "min" else max(vals)
+    raise _Unknown(C.unparse(e, 40))
+
+
+def _range_of(e, env, f):
+    """values of an iterable expression: range(...), tqdm.trange(...), or a name bound to one"""
+    if isinstance(e, ast.Call) and (dotted(e.func) or "").split(".")[-1] in ("range", "trange"):
+        return list(range(*[_pe(a, env) for a in e.args]))
+    if isinstance(e, ast.Name):
+        defs = [n.value for n in walk_local(f.node) if isinstance(n, ast.Assign) and dotted(n.targets[0]) == e.id]
+        vals = []
+        for d in defs:
+            try:
+                vals.append(_range_of(d, env, f))
+            except _Unknown:
+                pass
+        if vals and all(v == vals[0] for v in vals):
+            return vals[0]
+    raise _Unknown(C.unparse(e, 40))
+
+
+def _slice_numbers(f, call, env):
+    """all values of the slice-number argument of ``call`` under ``env`` (loops enumerated)"""
+    parents = f.module.parents
+    arg = call.args[1] if len(call.args) > 1 else None
+    if arg is None:
+        raise _Unknown("slice number not positional")
+    loops = []
+    cur = parents.get(call)
+    while cur is not None and cur is not f.node:
+        if isinstance(cur, ast.For):
+            loops.append((cur.target, cur.iter, cur))
+        elif isinstance(cur, (ast.GeneratorExp, ast.ListComp)):
+            for g in reversed(cur.generators):
+                loops.append((g.target, g.iter, None))
+        cur = parents.get(cur)
+    loops.reverse()
+    # straight-line integer assignments before the outermost loop (e.g. nblock, start)
+    env = dict(env)
+    for st in f.node.body:
+        if isinstance(st, ast.Assign) and len(st.targets) == 1 and isinstance(st.targets[0], ast.Name):
+            try:
+                env[st.targets[0].id] = _pe(st.value, env)
+            except _Unknown:
+                # a quantity computed from runtime data (the inner block size): a free symbol, sampled
+                if isinstance(st.value, ast.Call) and "stepsize" in env:
+                    env[st.targets[0].id] = env["stepsize"]
+    out = []
+
+    def rec(i, env):
+        if i == len(loops):
+            # local definition of the argument inside the innermost loop body
+            e2 = dict(env)
+            if isinstance(arg, ast.Name) and arg.id not in e2:
+                for lp in reversed([l for _, _, l in loops if l is not None]):
+                    for st in lp.body:
+                        if isinstance(st, ast.Assign) and dotted(st.targets[0]) == arg.id:
+                            e2[arg.id] = _pe(st.value, e2)
+                            break
+                    if arg.id in e2:
+                        break
+            out.append(_pe(arg, e2))
+            return
+        tgt, it, _ = loops[i]
+        if not isinstance(tgt, ast.Name):
+            raise _Unknown("loop target")
+        for v in _range_of(it, env, f):
+            e2 = dict(env)
+            e2[tgt.id] = v
+            rec(i + 1, e2)
+
+    rec(0, env)
+    return out
+
+
+def rule_cover(ctx):
+    """'The slice numbers 0..nslices-1 correspond one-to-one to the combinations of sliced values':
+    whoever enumerates slice numbers for contract_slice enumerates each of 0..nslices-1 exactly once
+    (over all workers, for the MPI variant).  The loop bounds are partially evaluated."""
+    r = RuleResult("C06-COVER", "every slice number is contracted exactly once", 3)
+    tc = tree_class(ctx)
+    for f in tc.methods.values():
+        calls = [n for n in walk_local(f.node) if isinstance(n, ast.Call) and isinstance(n.func, ast.Attribute)
+                 and n.func.attr == "contract_slice" and dotted(n.func.value) == "self"]
+        if not calls or f.name in ("contract_slice",):
+            continue
+        k = ctx.key(f, "C06-COVER")
+        txt = C.unparse(f.node, 100000)
+        combines = any(t in txt for t in ("gather_slices", "add_maybe_exponent_stripped", "Reduce", "Allreduce"))
+        if not combines:
+            r.exempt(k, C.loc(f, calls[0]), "does not combine per-slice results (timing / inspection only)")
+            continue
+        free = set()
+        bad = None
+        samples = [(4, 1), (4, 2), (6, 4), (7, 3), (12, 5), (5, 5)]
+        try:
+            for n, s in samples:
+                steps = [d for d in range(1, n + 1) if n % d == 0]
+                for step in steps:
+                    per_rank = []
+                    uses_rank = "comm.rank" in C.unparse(f.node, 100000)
+                    for rk in (range(s) if uses_rank else [0]):
+                        env = {"self.multiplicity": n, "self.nslices": n, "comm.rank": rk, "comm.size": s,
+                               "stepsize": step}
+                        vals = []
+                        for c in calls:
+                            vals.extend(_slice_numbers(f, c, env))
+                        per_rank.append(vals)
+                    allv = sorted(v for vs in per_rank for v in vs)
+                    if allv != list(range(n)) and bad is None:
+                        missing = sorted(set(range(n)) - set(allv))
+                        dup = sorted({v for v in allv if allv.count(v) > 1})
+                        bad = (n, s if uses_rank else None, step, missing, dup)
+                    if "//" not in txt:
+                        break
+        except _Unknown as e:
+            raise AnalysisError(f"{f.qual}: cannot enumerate the slice numbers handed to contract_slice ({e})")
+        if bad:
+            n, s, step, missing, dup = bad
+            who = f" on {s} processes" if s else ""
+            r.violation(k, C.loc(f, calls[0]), f"with {n} slices{who} (inner block {step}) the slice numbers "
+                        f"contracted miss {missing} and repeat {dup}: the combined result is not the sum/stack "
+                        f"over all combinations of sliced values")
+        else:
+            r.ok(k, C.loc(f, calls[0]), f"{len(calls)} call site(s) enumerate 0..nslices-1 exactly once "
+                 f"(partially evaluated for {len(samples)} sizes)")
+    return r
+
+
+def rule_freshchunk(ctx):
+    """Lazily generated output chunks 'tile the output exactly once' only if every yielded chunk is
+    its own array: a buffer that lives across iterations of the chunk loop (``out=acc``) makes all
+    chunks a consumer keeps alias the last one (seed C06_9)."""
+    r = RuleResult("C06-FRESHCHUNK", "every yielded chunk owns its storage", 1)
+    tc = tree_class(ctx)
+    f = tc.lookup("gen_output_chunks")
+    C.require(f is not None, "gen_output_chunks not found")
+    fl = ctx.flow(f)
+    k = ctx.key(f, "C06-FRESHCHUNK")
+    yields = [n for n in walk_local(f.node) if isinstance(n, ast.Yield)]
+    C.require(yields, "gen_output_chunks: no yield")
+    loops = C.enclosing_loops(f, C.enclosing_stmt(f, yields[0]))
+    C.require(loops, "gen_output_chunks: yield outside a loop")
+    lp = loops[-1]
+    head = fl.cfg.node_of(lp)
+    bad = None
+    for n in ast.walk(lp):
+        if isinstance(n, ast.Call):
+            for kw in n.keywords:
+                if kw.arg == "out" and isinstance(kw.value, ast.Name):
+                    nm = kw.value.id
+                    # loop-carried: a definition made inside the loop (or before it) reaches the next iteration
+                    defs_in = [d for d in fl.defs_reaching(nm, head.id)]
+                    at = fl.cfg.containing(n, f.module.parents)
+                    fresh_each = all(
+                        any(fl.cfg.nodes[d.node].ast is st or any(fl.cfg.nodes[d.node].ast is y for y in ast.walk(st))
+                            for st in lp.body) and not _conditional(f, fl.cfg.nodes[d.node].ast, lp)
+                        for d in fl.defs_reaching(nm, at.id))
+                    if defs_in and not fresh_each:
+                        bad = (n, nm)
+        if isinstance(n, ast.AugAssign) and isinstance(n.target, ast.Name):
+            nm = n.target.id
+            outside = [d for d in fl.defs_reaching(nm, head.id) if d.kind == "assign"
+                       and not any(fl.cfg.nodes[d.node].ast is y for y in ast.walk(lp))]
+            if outside and any(isinstance(y.value, (ast.Name, ast.Tuple)) and nm in C.unparse(y.value) for y in yields):
+                bad = (n, nm)
+    if bad:
+        r.violation(k, C.loc(f, bad[0]), f"`{C.unparse(bad[0], 60)}` accumulates into `{bad[1]}`, which lives across "
+                    f"the chunks of the generator: every chunk a consumer keeps is the same array, overwritten "
+                    f"by the next one")
+    else:
+        r.ok(k, f.loc, "no accumulator outlives one output chunk")
+    return r
+
+
+def _conditional(f, st, lp):
+    """st sits under an `if` inside the loop body (e.g. lazy `if acc is None: acc = ...`)"""
+    if st is None:
+        return True
+    for i, _ in C.enclosing_ifs(f, st):
+        if any(i is y for y in ast.walk(lp)):
+            return True
+    return False
+
+
+RULES = [rule_order, rule_pair, rule_multpair, rule_apply, rule_chunkkey, rule_combine, rule_copy, rule_cover, rule_freshchunk]
